@@ -125,6 +125,225 @@ fn mating_moves_exist(p: &Pos) -> bool {
     false
 }
 
+/// candidate un-moves of the side that is NOT to move in `p` (quiet single steps of a pawn backwards or of the king),
+/// returned as (from_now, to_before)
+fn unmoves(p: &Pos, white: bool) -> Vec<(u8, u8)> {
+    let mut v = vec![];
+    for s in 0..64u8 {
+        let c = p.b[s as usize];
+        if c == 0 || is_white(c) != white {
+            continue;
+        }
+        let (r, f) = (rank_of(s), file_of(s));
+        match kind_of(c) {
+            P => {
+                let back = if white { r - 1 } else { r + 1 };
+                // a pawn cannot have come from its own back rank
+                if (1..=6).contains(&back) && p.b[sq(back, f) as usize] == 0 {
+                    v.push((s, sq(back, f)));
+                }
+            }
+            K => {
+                for dr in -1..=1i8 {
+                    for df in -1..=1i8 {
+                        let (rr, ff) = (r + dr, f + df);
+                        if (dr, df) != (0, 0) && (0..8).contains(&rr) && (0..8).contains(&ff) && p.b[sq(rr, ff) as usize] == 0 {
+                            v.push((s, sq(rr, ff)));
+                        }
+                    }
+                }
+            }
+            _ => {}
+        }
+    }
+    v
+}
+
+/// A six-ply history ending in `root` in which the side to move shuffled the piece of its key move `m` (X->Y):
+/// Y->X, d1, X->Y, d2, Y->X, d3 with three different quiet defender moves. Such a history leaves the position
+/// itself new (the defender made progress), so no repetition rule applies, but the mover's record is a shuffle.
+pub fn shuffle_history(root: &Pos, m: &Mv) -> Option<RootSpec> {
+    if m.kind != MvKind::Normal || m.captured != 0 || kind_of(m.piece) == P || kind_of(m.piece) == K {
+        return None;
+    }
+    let att = root.white;
+    let (x, y) = (m.from, m.to);
+    let flip = |p: &Pos, from: u8, to: u8, side_after: bool| -> Option<Pos> {
+        if p.b[from as usize] == 0 || p.b[to as usize] != 0 {
+            return None;
+        }
+        let mut q = *p;
+        q.b[to as usize] = q.b[from as usize];
+        q.b[from as usize] = 0;
+        q.white = side_after;
+        q.ep = None;
+        Some(q)
+    };
+    // backwards: undo d3, undo a3 (piece X->Y backwards means it stood on Y), undo d2, undo a2, undo d1, undo a1
+    for (f3, t3) in unmoves(root, !att) {
+        let Some(p1) = flip(root, f3, t3, !att) else { continue }; // defender to move, before d3
+        let Some(p2) = flip(&p1, x, y, att) else { continue }; // attacker to move, piece on Y, before a3 = Y->X
+        for (f2, t2) in unmoves(&p2, !att) {
+            if (f2, t2) == (f3, t3) {
+                continue;
+            }
+            let Some(p3) = flip(&p2, f2, t2, !att) else { continue };
+            let Some(p4) = flip(&p3, y, x, att) else { continue }; // before a2 = X->Y the piece stood on X
+            for (f1, t1) in unmoves(&p4, !att) {
+                let Some(p5) = flip(&p4, f1, t1, !att) else { continue };
+                let Some(p6) = flip(&p5, x, y, att) else { continue }; // before a1 = Y->X the piece stood on Y
+                if !p6.sane() {
+                    continue;
+                }
+                // forward validation on the model
+                let hist = [(y, x), (t1, f1), (x, y), (t2, f2), (y, x), (t3, f3)];
+                // the defender's three moves must be pairwise different moves (so that the engine's own repetition rule stays silent)
+                if (t1, f1) == (t3, f3) || (t1, f1) == (t2, f2) || (t2, f2) == (t3, f3) {
+                    continue;
+                }
+                let mut cur = p6;
+                let mut texts = vec![];
+                let mut ok = true;
+                for (from, to) in hist {
+                    match cur.legal().into_iter().find(|mv| mv.from == from && mv.to == to && mv.kind == MvKind::Normal && mv.captured == 0) {
+                        Some(mv) => {
+                            texts.push(mv.uci());
+                            cur = cur.apply(&mv).normalised();
+                        }
+                        None => {
+                            ok = false;
+                            break;
+                        }
+                    }
+                }
+                if ok && cur.key() == root.normalised().key() {
+                    return Some(RootSpec { fen: p6.fen6(false), history: texts });
+                }
+            }
+        }
+    }
+    None
+}
+
+/// the same root reached through a shuffle history of the mover: the mate must still be played
+pub fn check_root_with_history(p: &Pos, class: Class, acc: &mut Acc) {
+    if class != Class::MateIn1 {
+        return;
+    }
+    for m in mating_moves(p) {
+        let Some(spec) = shuffle_history(p, &m) else { continue };
+        let Ok((game, pos)) = spec.build() else {
+            acc.errors.push(format!("cannot build {}", spec.text()));
+            continue;
+        };
+        if pos.key() != p.normalised().key() {
+            acc.errors.push(format!("history {} does not end in {}", spec.text(), p.fen4(false)));
+            continue;
+        }
+        acc.count("mate-in-1 roots reached through a shuffle history of the mover");
+        let mates: Vec<String> = mating_moves(p).iter().map(|x| x.uci()).collect();
+        for (limit, mode) in [(Some(3u8), "depth 3"), (None, "unlimited")] {
+            let mut t = new_table();
+            let run = run_search(&game, &mut t, &SearchCfg { max_depth: limit, stop_at: u64::MAX, depth_monitor: u32::MAX, watchdog: 3_000_000, tableless: false });
+            acc.evaluations += 1;
+            acc.transitions += 1;
+            let replay = json::obj(vec![("kind", json::s("c10-history")), ("fen", json::s(spec.fen.clone())), ("history", json::s(spec.history.join(" ")))]);
+            match &run.result {
+                Err(pn) => acc.violation(format!("c10h-panic|{}", spec.text()), format!("search crashed: {} [{}]", pn, spec.text()), replay),
+                Ok(Some(mv)) if mates.contains(mv) && !run.watchdog_fired => acc.outcome("mate-in-1 after shuffle history: played"),
+                Ok(other) => {
+                    acc.outcome("mate-in-1 after shuffle history: missed");
+                    acc.violation(format!("c10h-missed|{}", spec.text()), format!("mate in one available ({:?}) in {} but after the game `{}` the engine ({}) answers {:?}{}", mates, p.fen4(false), spec.text(), mode, other, if run.watchdog_fired { " and does not stop by itself" } else { "" }), replay);
+                }
+            }
+        }
+        break;
+    }
+}
+
+/// Exhaustive short-game enumeration: from `start` (attacker to move) the attacker shuffles one piece Y->X, X->Y, Y->X
+/// while the defender plays every legal move; every final position in which X->Y has become checkmate (it was not
+/// before: the defender's own moves built the net) is returned with its six-ply history.
+pub fn shuffle_games(start: &str) -> Vec<(RootSpec, Pos, String)> {
+    let mut out = vec![];
+    let Ok(parsed) = parse_fen_strict(start) else { return out };
+    let s0 = parsed.pos.normalised();
+    let quiet = |m: &Mv| m.kind == MvKind::Normal && m.captured == 0 && kind_of(m.piece) != P && kind_of(m.piece) != K;
+    for a1 in s0.legal().into_iter().filter(|m| quiet(m)) {
+        let (y, x) = (a1.from, a1.to);
+        let p1 = s0.apply(&a1).normalised();
+        for d1 in p1.legal() {
+            let p2 = p1.apply(&d1).normalised();
+            let Some(a2) = p2.legal().into_iter().find(|m| m.from == x && m.to == y && quiet(m)) else { continue };
+            let p3 = p2.apply(&a2).normalised();
+            for d2 in p3.legal() {
+                if d2.uci() == d1.uci() {
+                    continue;
+                }
+                let p4 = p3.apply(&d2).normalised();
+                let Some(a3) = p4.legal().into_iter().find(|m| m.from == y && m.to == x && quiet(m)) else { continue };
+                let p5 = p4.apply(&a3).normalised();
+                for d3 in p5.legal() {
+                    if d3.uci() == d1.uci() || d3.uci() == d2.uci() {
+                        continue;
+                    }
+                    let r = p5.apply(&d3).normalised();
+                    let Some(m) = r.legal().into_iter().find(|m| m.from == x && m.to == y) else { continue };
+                    let after = r.apply(&m);
+                    if after.in_check(after.white) && after.legal().is_empty() {
+                        let hist = vec![a1.uci(), d1.uci(), a2.uci(), d2.uci(), a3.uci(), d3.uci()];
+                        out.push((RootSpec { fen: s0.fen6(false), history: hist }, r, m.uci()));
+                    }
+                }
+            }
+        }
+    }
+    out
+}
+
+pub const SHUFFLE_STARTS: [&str; 12] = [
+    "rnbqkbnr/1ppppppp/p7/7Q/4P3/8/PPPP1PPP/RNB1KBNR w KQkq - 0 3",
+    "rnbqkbnr/pppp1ppp/8/4p2Q/4P3/8/PPPP1PPP/RNB1KBNR w KQkq - 0 3",
+    "6k1/5ppp/8/7Q/8/8/5PPP/6K1 w - - 0 1",
+    "5rk1/5ppp/8/8/8/3Q4/5PPP/6K1 w - - 0 1",
+    "4k3/3ppp2/8/8/7Q/8/5PPP/6K1 w - - 0 1",
+    "7k/6pp/8/8/8/2R5/6PP/6K1 w - - 0 1",
+    "rnbqkbnr/1ppppppp/p7/8/4P3/8/PPPP1PPP/RNBQKBNR w KQkq - 0 2",
+    "6k1/5ppp/8/8/8/8/5PPP/3Q2K1 w - - 0 1",
+    "5rk1/5ppp/8/8/8/8/5PPP/3Q2K1 w - - 0 1",
+    "4k3/3ppp2/8/8/8/8/5PPP/3Q2K1 w - - 0 1",
+    "7k/6pp/8/8/8/8/6PP/2R3K1 w - - 0 1",
+    "r1bqkb1r/pppp1ppp/2n2n2/4p3/2B1P3/8/PPPP1PPP/RNBQK1NR w KQkq - 4 4",
+];
+
+pub fn check_game_root(spec: &RootSpec, r: &Pos, key_move: &str, acc: &mut Acc) {
+    let Ok((game, pos)) = spec.build() else {
+        acc.errors.push(format!("cannot build {}", spec.text()));
+        return;
+    };
+    if pos.key() != r.key() {
+        acc.errors.push(format!("history {} does not end in {}", spec.text(), r.fen4(false)));
+        return;
+    }
+    acc.states += 1;
+    let mates: Vec<String> = mating_moves(r).iter().map(|x| x.uci()).collect();
+    for (limit, mode) in [(Some(3u8), "depth 3"), (None, "unlimited")] {
+        let mut t = new_table();
+        let run = run_search(&game, &mut t, &SearchCfg { max_depth: limit, stop_at: u64::MAX, depth_monitor: u32::MAX, watchdog: 60_000, tableless: false });
+        acc.evaluations += 1;
+        acc.transitions += 1;
+        let replay = json::obj(vec![("kind", json::s("c10-game")), ("fen", json::s(spec.fen.clone())), ("history", json::s(spec.history.join(" "))), ("key_move", json::s(key_move))]);
+        match &run.result {
+            Err(pn) => acc.violation(format!("c10g-panic|{}", spec.text()), format!("search crashed: {} [{}]", pn, spec.text()), replay),
+            Ok(Some(mv)) if mates.contains(mv) && !run.watchdog_fired => acc.outcome("mate-in-1 at the end of a shuffle game: played"),
+            Ok(other) => {
+                acc.outcome("mate-in-1 at the end of a shuffle game: missed");
+                acc.violation(format!("c10g-missed|{}", spec.text()), format!("mate in one available ({:?}) in {} but after the game `{}` the engine ({}) answers {:?}{}", mates, r.fen4(false), spec.text(), mode, other, if run.watchdog_fired { " and does not stop by itself" } else { "" }), replay);
+            }
+        }
+    }
+}
+
 fn rj(fen: &str) -> J {
     json::obj(vec![("kind", json::s("c10-root")), ("fen", json::s(fen))])
 }
@@ -142,7 +361,7 @@ pub fn check_root(p: &Pos, class: Class, solver: &mut Solver, acc: &mut Acc) {
     };
     for (limit, mode) in modes {
         let mut t = new_table();
-        let cfg = SearchCfg { max_depth: limit, stop_at: u64::MAX, depth_monitor: u32::MAX, watchdog: 20_000_000, tableless: false };
+        let cfg = SearchCfg { max_depth: limit, stop_at: u64::MAX, depth_monitor: u32::MAX, watchdog: if class == Class::MateIn2 { 3_000_000 } else { 300_000 }, tableless: false };
         let run = run_search(&g, &mut t, &cfg);
         acc.evaluations += 1;
         acc.transitions += 1;
@@ -251,13 +470,36 @@ pub fn run(tier: &str, seed: i64) -> Outcome {
             acc.count(&format!("class {:?}", class));
             if class != Class::Other {
                 check_root(ctx.pos, class, &mut s, acc);
+                check_root_with_history(ctx.pos, class, acc);
                 if acc.samples.len() < 3 {
                     acc.sample(json::obj(vec![("root", json::s(ctx.pos.fen6(false))), ("class", json::s(format!("{:?}", class)))]));
                 }
             }
         });
     });
-    let mut out = Outcome::new(acc, reports, "every member of the listed spaces is classified by the reference model's own solver (mate in 1 / forced mate in 2 / checkmated / stalemated / other); every member of the first four classes is searched by the real engine from a fresh table, unlimited (under a poll watchdog) and with the explicit depth limit 3 resp. 5: a mate in one must be played and the search must stop by iteration 3; with a forced mate in two the move played must keep a forced mate (AND/OR search on the model, within three further moves) and the search must stop by iteration 5; dead positions must yield no move");
+    let (mut acc, mut reports) = (acc, reports);
+    // shuffle games: all short games in which the mover shuffles one piece and the defender's own moves build the net
+    let t0 = std::time::Instant::now();
+    let starts: Vec<String> = SHUFFLE_STARTS.iter().flat_map(|s| {
+        let mut v = vec![s.to_string()];
+        if let Ok(p) = parse_fen_strict(s) {
+            v.push(p.pos.mirror().fen6(false));
+        }
+        v
+    }).collect();
+    let starts = if q { starts[..12].to_vec() } else { starts };
+    let games = par_items(&starts, &|_, st, acc| {
+        for (spec, r, key) in shuffle_games(st) {
+            acc.count("final positions of shuffle games with a fresh mate in one");
+            check_game_root(&spec, &r, &key, acc);
+            if acc.samples.len() < 1 {
+                acc.sample(json::obj(vec![("game", json::s(spec.text())), ("mate", json::s(key.clone()))]));
+            }
+        }
+    });
+    reports.push(SpaceReport { name: format!("shuffle games from {} start positions: every 6-ply game Y->X d1 X->Y d2 Y->X d3 (all defender moves) whose final position has X->Y as a new mate in one", starts.len()), states: games.states, exhaustive: true, note: format!("[{:.1}s]", t0.elapsed().as_secs_f64()) });
+    acc.merge(games);
+    let mut out = Outcome::new(acc, reports, "every member of the listed spaces is classified by the reference model's own solver (mate in 1 / forced mate in 2 / checkmated / stalemated / other); every member of the first four classes is searched by the real engine from a fresh table, unlimited (under a poll watchdog) and with the explicit depth limit 3 resp. 5: a mate in one must be played and the search must stop by iteration 3; with a forced mate in two the move played must keep a forced mate (AND/OR search on the model, within three further moves) and the search must stop by iteration 5; dead positions must yield no move; every mate-in-1 root for which a six-ply history exists in which the mover shuffled the mating piece (and the defender made three different quiet moves) is searched again with that history: the mate must still be played");
     out.traces_validated = out.acc.transitions;
     out.assumptions = vec!["'keeps the forced mate' is read as: a forced mate still exists after the move (distance may grow; such cases are counted as mate_distance_regressions, DESIGN.md O1)".into(), "<= 4 men (plus the castling family with one extra piece)".into()];
     out
@@ -265,6 +507,20 @@ pub fn run(tier: &str, seed: i64) -> Outcome {
 
 pub fn replay(j: &J) -> Result<Acc, String> {
     let fen = j.get("fen").and_then(|x| x.as_str()).ok_or("fen")?;
+    if j.get("kind").and_then(|x| x.as_str()) == Some("c10-game") {
+        let spec = RootSpec::with(fen, j.get("history").and_then(|x| x.as_str()).unwrap_or(""));
+        let (_, pos) = spec.build()?;
+        let mut acc = Acc::new();
+        check_game_root(&spec, &pos, j.get("key_move").and_then(|x| x.as_str()).unwrap_or(""), &mut acc);
+        return Ok(acc);
+    }
+    if j.get("kind").and_then(|x| x.as_str()) == Some("c10-history") {
+        let spec = RootSpec::with(fen, j.get("history").and_then(|x| x.as_str()).unwrap_or(""));
+        let (_, pos) = spec.build()?;
+        let mut acc = Acc::new();
+        check_root_with_history(&pos, Class::MateIn1, &mut acc);
+        return Ok(acc);
+    }
     let p = parse_fen_strict(fen)?.pos.normalised();
     let mut s = Solver::new();
     let class = classify(&p, &mut s);
